@@ -33,7 +33,7 @@ CHECKS.update({
          "All 32 DF codes at all lengths 0..=32, the complete subtype x version x reserved-group grid of type 31, structured frames truncated / exact / over-long; accepted iff the statement says so, right variant, checksum over exactly the frame, tail bytes without influence; uniform all-zero / all-one buffers in every cell; from_reader on a reader positioned inside a stream gives the same verdict, variant and checksum.",
          "ME 13-14 != 0 in a surface operational status is left open (DO-260B reserves, library ignores).", "3 C02"),
  "C03": ("exploration", "differential vs bitwise polynomial division; constructed-parity frames; exhaustive error-pattern enumeration on base frames",
-         "crc == remainder mod 0x1FFF409 on random, single-byte and double-byte frames; the three meanings on constructed frames (all 128 II codes); all error patterns of weight <= 3 (<= 5 thorough) and all bursts <= 24 bits with bounded interior weight (all 2^22 interiors thorough) on 10 valid base frames never give checksum 0; the checksum of a sample also in the alloc-only build (child process), through a serialize/deserialize round trip, and through a reader with one transient Interrupted before each of its first 18 read calls; no checksum for a buffer shorter than the frame; a format of which no constructed frame is reported at all is a violation.",
+         "crc == remainder mod 0x1FFF409 on random, single-byte and double-byte frames; the three meanings on constructed frames (all 128 II codes); all error patterns of weight <= 3 (<= 5 thorough) and all bursts <= 24 bits with bounded interior weight (all 2^22 interiors thorough) on 10 valid base frames never give checksum 0; the checksum of a sample also in the alloc-only build (child process), through a serialize/deserialize round trip, and through a reader with one transient Interrupted before each of its first 18 read calls; no checksum for a buffer shorter than the frame; the address/parity formats show the same number behind 'ICAO Address:' in their text form; a format of which no constructed frame is reported at all is a violation.",
          "Error detection is enumerated over patterns, not over all base frames; patterns that turn the frame into a 56-bit or rejected frame are excluded.", "3 C03"),
  "C05": ("exploration", "round trip through a reference CPR encoder (inverse), exact integer reference decoder (differential), exhaustive zone-latitude probes",
          "True positions over the whole sphere (poles, equator, antimeridian, every NL transition) with displacements <= 3 NM in both orders decode to within the quantisation error and re-encode to the second report; raw pairs are rejected when inconsistent; every reachable zone latitude of both parities is probed for its longitude-zone count; a sample of pairings also computed by the alloc-only build (child process); the two reports of a pair differ in type code, time bit and altitude; pairs decoded as the first act of a fresh process (equator, poles, grid origins, transitions) must give the warm answer.",
@@ -45,7 +45,7 @@ CHECKS.update({
          "Histories of DF17/DF18 squitters of every payload kind (one in 16 with a flipped parity bit: decoded, checksum not zero) from 1-6 interleaved aircraft, non-squitter formats with the same addresses, waits (0.5 s to 2 h) and expiry; added flag, key set, message counts compared after every op; record(H) == record(H restricted to the aircraft); crowds of 700-2100 (70 000) distinct addresses incl. blocks of consecutive ones; one aircraft heard 90 000 (1.3 million) times; thin traffic in real time (an aircraft heard every 100 ms with expiry after every frame is never removed or re-added); generated histories interpreted by the alloc-only build (child process).",
          "Frames are real bytes decoded by the library; histories up to 40 ops.", "4 C12"),
  "C13": ("exploration", "proptest histories vs reference model with reference great-circle distance and CPR encoder",
-         "Consistent flights, jumps around 100 km, positions at 0.99/1.01 x range, garbage CPR, repeated reports (also bit-identical ones), eleven receiver sites (poles, antimeridian, equator, two with the same latitude, three within 100-700 km of the first), range limits incl. 40 075 km and infinity, the receiver moving within a history (directed: by 100 km and by exactly one odd longitude zone while an aircraft is tracked); publish/clear decision, stored reports (incl. altitude), distance and the published position list compared after every position report; deterministic flights across each of the 58 zone transitions in both hemispheres; crowds of 900 / 2500 (40 000) positioned aircraft.",
+         "Consistent flights, jumps around 100 km, positions at 0.99/1.01 x range, garbage CPR, repeated reports (also bit-identical ones, and the CPR words of another aircraft), eleven receiver sites (poles, antimeridian, equator, two with the same latitude, three within 100-700 km of the first), range limits incl. 40 075 km and infinity, the receiver moving within a history (directed: by 100 km and by exactly one odd longitude zone while an aircraft is tracked); publish/clear decision, stored reports (incl. altitude), distance and the published position list compared after every position report; deterministic flights across each of the 58 zone transitions in both hemispheres; crowds of 900 / 2500 (40 000) positioned aircraft.",
          "get_position is the pairing function (decided by C05), either argument order accepted; thresholds within 1e-6 are don't-care.", "4 C13"),
  "C14": ("exploration", "proptest histories; latest-wins model + invariants after every op",
          "Callsign/heading/speed/rate latest-wins; distance<=>position, all_position, details, track order, to_string checked for every record after every op (histories include the last report of a parity re-sent bit for bit); a 9 000 (40 000)-report flight of one aircraft whose track must equal the earlier publications; positioned crowds.",
@@ -63,10 +63,10 @@ CHECKS.update({
 
 CHECKS.update({
  "C16": ("exploration", "Hypothesis-generated feeds x segmentations x delays x connection drops (FIN and RST) against the real binaries (pty/TCP/log black box); expected line sequence oracle",
-         "Well-formed lines (incl. frames made of ff / 00 bytes, upper-case hex digits, the same line three times in a row) interleaved with 36 kinds of malformed line (every kind under every option set of both clients on every run), cut anywhere (also inside non-ASCII runs) with pauses on both sides of the 50 ms read timeout, one silence of 2.6 s per case in front of a line that is then split, dropped at arbitrary byte offsets with and without --retry-tcp; the well-formed lines must be processed exactly once in order by both clients, the clients must survive, exit cleanly on disconnect or reconnect (also after the server was unreachable for 12 s, attempts timing out, or gone for 1, 4 and 9 s, attempts refused) and keep their aircraft.",
+         "Well-formed lines (incl. frames made of ff / 00 bytes, upper-case hex digits, the same line three times in a row) interleaved with 36 kinds of malformed line (every kind under every option set of both clients on every run), cut anywhere (also inside non-ASCII runs) with pauses on both sides of the 50 ms read timeout, one silence of 2.6 s per case in front of a line that is then split, 22 s without a byte on a connection that stays up, dropped at arbitrary byte offsets with and without --retry-tcp; the well-formed lines must be processed exactly once in order by both clients, the clients must survive, exit cleanly on disconnect or reconnect (also after the server was unreachable for 12 s, attempts timing out, or gone for 1, 4 and 9 s, attempts refused) and keep their aircraft and their statistics.",
          "Timing is requested, not controlled: the verdict never depends on measured time. Failures that depend on kernel scheduling may not reproduce on every replay (replay retries 5 times).", "5 C16"),
  "C17": ("exploration", "Hypothesis-generated operator sessions (keys, key bursts, SGR mouse, resizes, traffic, expiry, option sets) on a real pty; liveness / exit status / termios / escape-sequence oracle; CLI invalid-value grammar",
-         "After every step the radar process must be alive without a panic; quit (q / Ctrl-C, also while waiting for the connection) must exit 0 with termios restored, mouse reporting off and the cursor visible; invalid option values (incl. arguments that are not UTF-8) must be clap usage errors. Swept on every run: the invalid-value grammar, every listed kind of line that is not a frame on every tab, a feed that never pauses (other protocol, all-zero frames, noise, frames) and a reconnected feed (quiet or busy) followed by keys, a resize and every way of quitting, every pair of selection/view keys as one burst on every tab, every listed --scale and receiver position (NaN, inf, poles), expiry on every tab, 400 aircraft, a scrolled table whose aircraft all expire at once, 9-21 zoom steps with tracked aircraft, a silent / talking gpsd daemon while quitting, 150-key bursts on the waiting screen.",
+         "After every step the radar process must be alive without a panic; quit (q / Ctrl-C, also while waiting for the connection) must exit 0 with termios restored, mouse reporting off and the cursor visible; invalid option values (incl. arguments that are not UTF-8) must be clap usage errors. Swept on every run: the invalid-value grammar, every tab on 50- and 120-row and 160- and 250-column terminals, every listed kind of line that is not a frame on every tab, a feed that never pauses (other protocol, all-zero frames, noise, frames) and a reconnected feed (quiet or busy) followed by keys, a resize and every way of quitting, every pair of selection/view keys as one burst on every tab, every listed --scale and receiver position (NaN, inf, poles), expiry on every tab, 400 aircraft, a scrolled table whose aircraft all expire at once, 9-21 zoom steps with tracked aircraft, a silent / talking gpsd daemon while quitting, 150-key bursts on the waiting screen.",
          "Each step waits 120 ms for the event loop; the terminal is a pty driven by a minimal VT emulator, not a real terminal emulator.", "5 C17"),
  "C18": ("exploration", "Hypothesis-generated scenarios; screen (VT-emulated) vs tracker state computed by the real library (differential); map metamorphic relations (direction, proportionality, zoom, pan, reset)",
          "Airplanes tab rows and titles equal the tracker's records, Stats totals equal added events / peak count, markers lie on the correct side of the centre at proportional offsets (self-calibrated), view controls leave the tables unchanged and reset restores the map cell for cell; centring the view on an aircraft puts its marker at the canvas centre at every zoom level (also when a row without a position sorts first); receivers beyond 85 degrees of latitude; aircraft heard via DF18 or first heard with a status / target-state squitter; receiver position delivered by a gpsd server that also sends GST / SKY / no-fix reports; 'newly added' judged by the tracked set; expiry scenarios judged on radar's own logged processing times incl. a silent phase after which the screen must be empty without any key; thorough: a 10 050-frame aircraft.",
